@@ -132,6 +132,33 @@ func genRobust(t *rapid.T, proto string, envs map[string]*wire.GenEnv, amplify b
 				}
 				continue
 			}
+			if proto == "ipfix" && kind >= 5 && kind <= 7 && rapid.IntRange(0, 9).Draw(t, "nested") == 0 {
+				// several message headers in one datagram whose length fields disagree with the sets behind them: every
+				// block is a message header announcing 24 octets followed by a data set header whose length runs to the
+				// end of the datagram; whatever a decoder makes of "messages inside messages", it must not emit the same
+				// octets as records again and again
+				id := uint16(300 + len(c.Items))
+				tp := wire.Template{ID: id, Fields: []wire.Field{{ID: 4, Len: 1, Type: wire.TUint8}}}
+				var a wire.Msg
+				env.GenHeader(t, &a)
+				a.Sets = []wire.Set{{Kind: "tpl", Tpls: []wire.Template{tp}}}
+				add(exp, a.Bytes(), "valid-announce")
+				nb := rapid.SampledFrom([]int{2, 5, 30, 58}).Draw(t, "nblocks")
+				if big {
+					nb = rapid.SampledFrom([]int{58, 300, 1300}).Draw(t, "nblocksbig")
+				}
+				hl := uint16(rapid.SampledFrom([]int{24, 24, 16, 20, 28}).Draw(t, "blocklen"))
+				total := nb*24 + 8
+				b := make([]byte, 0, total)
+				for i := 0; i < nb; i++ {
+					rest := total - len(b) - 16
+					b = append(b, 0, 10, byte(hl>>8), byte(hl), 0, 0, 0, 1, 0, 0, 0, byte(i), 0, 0, 0, 0)
+					b = append(b, byte(id>>8), byte(id), byte(rest>>8), byte(rest), 1, 2, 3, 4)
+				}
+				b = append(b, 9, 9, 9, 9, 9, 9, 9, 9)
+				add(exp, b, "weird-nested-messages")
+				continue
+			}
 			if kind >= 5 && kind <= 7 && rapid.IntRange(0, 7).Draw(t, "tinysets") == 0 {
 				// as many minimal sets as fit: every one costs the decoder an error (unknown template, reserved id) or a
 				// skip; whatever is kept per set must stay proportional to the octets, not to their square
